@@ -122,7 +122,7 @@ func (s *script) genStep(r *sim.Rand) *sim.Step {
 	case 9:
 		return &sim.Step{Op: "restart"}
 	default:
-		return &sim.Step{Op: "inferior", A: []int64{int64(r.Intn(3))}}
+		return &sim.Step{Op: "inferior", A: []int64{int64(r.Intn(3)), int64(r.Intn(2))}}
 	}
 }
 
